@@ -336,6 +336,24 @@ func (c *Ctx) rulesC17() {
 		c.undecided(fmt.Sprintf("C17.rec: only %d MTimeTracked stores in history tracers", nrec))
 	}
 
+	// C17.chk: dry runs leave no record
+	c.rule("C17.chk", "every backend's tracer returns before recording when the mutation is a check (CanAdd/CanRemove): each store of a record's tracked times is dominated by !Mutation.IsCheck")
+	fIsCheck := c.field(pm, "Mutation", "IsCheck")
+	nchk := 0
+	for _, f := range c.Funcs {
+		tf := topFunc(f)
+		if tf.Pkg == nil || !strings.HasPrefix(relPkg(tf.Pkg.Pkg.Path()), ph) || f.Name() != "TransitionEnd" || f.Parent() != nil {
+			continue
+		}
+		for i, w := range writesOfFieldIn(f, fMTT) {
+			nchk++
+			c.requireGuards("C17.chk", fmt.Sprintf("%s record%s", funcKey(f), nth(i)), w.Instr, gFieldTruth("!Mutation.IsCheck", fIsCheck, false))
+		}
+	}
+	if nchk < 3 {
+		c.undecided(fmt.Sprintf("C17.chk: only %d record sites", nchk))
+	}
+
 	// C17.imp
 	fMTick := c.field(pm, "Machine", "machineTick")
 	fSerTick := c.field(pm, "Serialized", "MachineTick")
@@ -349,6 +367,24 @@ func (c *Ctx) rulesC17() {
 			}
 		}
 		c.check(good, "C17.imp", "Import sets machineTick = imported MachineTick + 1", imp.Pos(), "the rebuilt machine must be one machine tick ahead of the export")
+	}
+	// Import restores each tick under the exporter's state name for that position
+	fSerNames := c.field(pm, "Serialized", "StateNames")
+	fClockF := c.field(pm, "Machine", "clock")
+	if imp := c.fn(pm + ":Machine.Import"); imp != nil && fSerNames != nil && fClockF != nil {
+		n := 0
+		for _, w := range writesOfFieldIn(imp, fClockF) {
+			mu, ok := w.Instr.(*ssa.MapUpdate)
+			if !ok {
+				continue
+			}
+			n++
+			okk := derivesShallow(mu.Key, func(x ssa.Value) bool { return loadOfField(x) == fSerNames || fieldOf(x) == fSerNames })
+			c.check(okk, "C17.imp", "Import keys restored ticks by the exported state names", w.Instr.Pos(), "the tick at position i belongs to data.StateNames[i]; keyed by "+render(mu.Key)+" it lands on another state when exporter and importer order their states differently")
+		}
+		if n < 1 {
+			c.undecided("C17.imp: Import does not write the clock")
+		}
 	}
 	if exp := c.fn(pm + ":Machine.Export"); exp != nil && fMTick != nil && fSerTick != nil {
 		good := false
